@@ -21,6 +21,7 @@ V = vlib.VERIF
 A19 = "6172303738787546672009225c233b3c3e2e2f"   # a r 0 7 8 x u F g SP TAB " \ # ; < > . /
 A12 = "6130373878754620225c2367"                 # a 0 7 8 x u F SP " \ # g
 A9 = "613137787520225c23"                        # a 1 7 x u SP " \ #
+AWS = "6120090a0b0c0d225c23"                     # a SP TAB LF VT FF CR " \ #   (the whole whitespace set)
 BLOCK = 4096
 
 GNAMES = ["T_BIT", "T_CARRAY", "T_CONST", "T_DIVIDE", "T_INDIR", "T_LINCOM", "T_LINTERP", "T_MPLEX", "T_MULTIPLY",
@@ -85,6 +86,7 @@ def tokeniser_part(chk, exe, drv, problems):
     thorough = chk.thorough
     plan = [(A19, L) for L in range(0, 6 if not thorough else 7)]
     plan += [(A12, 6), (A9, 7)] if not thorough else [(A12, 7), (A9, 8)]
+    plan += [(AWS, L) for L in range(1, 6 if not thorough else 7)]
     jobs = []
     for alpha, L in plan:
         for lo, hi in shards(alpha, L, 32):
